@@ -4,6 +4,7 @@
 package main
 
 import (
+	"errors"
 	"fmt"
 	"sort"
 	"strings"
@@ -345,6 +346,11 @@ func main() {
 		}
 		st.Count("pass:serve-sequence")
 	}
+	if prop == "C01" {
+		// own PRNG and appended last: the streams above (and their case indexes) are unchanged by it
+		nontrivial += txnIsolation(hx.NewRand(hx.Seed()^0x7c01150a), cs, st, tier)
+		st.Rule += "; transaction-isolation stream: nested families (every cut of a random pattern outside braces, short extensions) partly committed, then a cached write transaction (Router.Txn(true) ended by Abort / Commit, Router.Updates failing / succeeding) running Update + Handle/Delete/Update below the updated route (scripted) or random writes; the ROUTER's entry points (and an Iter taken before the transaction) are observed while it is open and after it ended, the transaction's own entry points before it ends; the expected tree is a fresh router filled from the harness' own record of the committed (resp. transaction) set"
+	}
 	st.Evaluations = cs.Len()
 	st.DistinctNontrivial = nontrivial
 	if len(st.Samples) == 0 {
@@ -367,4 +373,336 @@ func dumpRoutes(f *fox.Router) []string {
 		out = append(out, m+" "+r.Pattern())
 	}
 	return out
+}
+
+// ---------- transaction-isolation stream (C01: "on the router and on transactions") ----------
+
+// nestedFamily derives from one random pattern a family of patterns that are byte-wise prefixes /
+// extensions of each other (every cut outside braces, plus short extensions of some members), so that
+// the node of one member has the others below it.
+func nestedFamily(r *hx.Rand) []string {
+	base := rt.Pattern(r, 20)
+	host, path := rt.SplitPattern(base)
+	set := map[string]bool{base: true}
+	depth := 0
+	for i := 1; i < len(path); i++ {
+		switch path[i-1] {
+		case '{':
+			depth++
+		case '}':
+			depth--
+		}
+		if depth == 0 && path[i-1] != '*' && (path[i] == '/' || path[i-1] == '/' || r.Pct(50)) {
+			set[host+path[:i]] = true
+		}
+	}
+	var members []string
+	for p := range set {
+		members = append(members, p)
+	}
+	sort.Strings(members)
+	for _, m := range members {
+		for k := r.Range(0, 2); k > 0; k-- {
+			sf := hx.Pick(r, []string{"/d", "d", "/{k}", "/d/e", "/", "/*{r}", "{k}", "/d/{k}", "e", "/e"})
+			if strings.HasSuffix(m, "/") {
+				sf = strings.TrimPrefix(sf, "/") // no empty segment (outside the specification's domain)
+			}
+			if sf != "" {
+				set[m+sf] = true
+			}
+		}
+	}
+	members = members[:0]
+	for p := range set {
+		members = append(members, p)
+	}
+	sort.Strings(members)
+	for i := len(members) - 1; i > 0; i-- {
+		j := r.Intn(i + 1)
+		members[i], members[j] = members[j], members[i]
+	}
+	if len(members) > 14 {
+		members = members[:14]
+	}
+	return members
+}
+
+type isoReq struct{ method, host, path string }
+
+// freshTree fills a NEW router (Router.Handle only) from the harness' own record of a route set and
+// returns its dump as a term; ok=false when the fresh router refuses a recorded route.
+func freshTree(set map[string]bool) (term string, keys []string, ok bool) {
+	g, err := fox.New(fox.WithIgnoreTrailingSlash(true))
+	hx.Fatal(err)
+	for k := range set {
+		keys = append(keys, k)
+	}
+	sort.Strings(keys)
+	ok = true
+	for _, k := range keys {
+		m, p, _ := strings.Cut(k, " ")
+		if _, err := g.Handle(m, p, rt.Rec); err != nil {
+			ok = false
+		}
+	}
+	return rt.RootsTerm(g.VerifDump(), nil), keys, ok
+}
+
+func lcaseTerm(def string, q isoReq, lookup string, rev string, inSpec, others bool) string {
+	return fmt.Sprintf("(%s, {| q_method := %s; q_rawhost := %s; q_host := %s; q_path := %s; q_lookup := %s; q_reverse := %s; q_spec := %s; q_others := %s |})",
+		def, hx.Bytes(q.method), hx.Bytes(q.host), hx.Bytes(fox.VerifStripHostPort(q.host)), hx.Bytes(q.path), lookup, rev, hx.Bool(inSpec), hx.Bool(others))
+}
+
+// txnIsolation: route sets observed on the ROUTER while a cached write transaction with uncommitted
+// writes is open and after it ended, against the harness' own record of the committed set.
+func txnIsolation(rnd *hx.Rand, cs *hx.Cases, st *hx.Stats, tier string) (nontrivial int) {
+	nscen, nreq := 70, 8
+	if tier == "thorough" {
+		nscen, nreq = 400, 12
+	}
+	for sc := 0; sc < nscen; sc++ {
+		f, err := fox.New(fox.WithIgnoreTrailingSlash(true))
+		hx.Fatal(err)
+		fam := nestedFamily(rnd)
+		methods := []string{"GET", "POST"}[:rnd.Range(1, 2)]
+		committed := map[string]bool{} // "METHOD pattern", from the results of the harness' own write calls
+		for _, p := range fam[:rnd.Range(len(fam)/2, len(fam))] {
+			m := methods[0]
+			if rnd.Pct(25) {
+				m = hx.Pick(rnd, methods)
+			}
+			if _, err := f.Handle(m, p, rt.Rec); err == nil {
+				committed[m+" "+p] = true
+			}
+		}
+		if len(committed) == 0 {
+			continue
+		}
+		early := f.Iter() // an iterator taken BEFORE the transaction: keeps routing on the set committed now
+		cur := map[string]bool{}
+		for k := range committed {
+			cur[k] = true
+		}
+		curKeys := func() (ks []string) {
+			for k := range cur {
+				ks = append(ks, k)
+			}
+			sort.Strings(ks)
+			return
+		}
+		var ops, touched []string
+		do := func(txn *fox.Txn, op, key string) {
+			m, p, _ := strings.Cut(key, " ")
+			var err error
+			func() {
+				defer func() {
+					if r := recover(); r != nil {
+						err = fmt.Errorf("panic: %v", r)
+					}
+				}()
+				switch op {
+				case "Handle":
+					_, err = txn.Handle(m, p, rt.Rec)
+				case "Update":
+					_, err = txn.Update(m, p, rt.Rec)
+				default:
+					_, err = txn.Delete(m, p)
+				}
+			}()
+			res := "ok"
+			if err != nil {
+				res = "refused"
+			} else if op == "Handle" {
+				cur[key] = true
+			} else if op == "Delete" {
+				delete(cur, key)
+			}
+			ops = append(ops, fmt.Sprintf("%s(%s)=%s", op, key, res))
+			touched = append(touched, p)
+		}
+		below := func(key string) (out []string) { // family members extending key's pattern, same method
+			m, p, _ := strings.Cut(key, " ")
+			for _, q := range fam {
+				if q != p && strings.HasPrefix(q, p) {
+					out = append(out, m+" "+q)
+				}
+			}
+			return
+		}
+		scripted := rnd.Pct(65)
+		writes := func(txn *fox.Txn) {
+			if scripted {
+				var cands []string
+				for _, k := range curKeys() {
+					if len(below(k)) > 0 {
+						cands = append(cands, k)
+					}
+				}
+				if len(cands) > 0 {
+					k := hx.Pick(rnd, cands)
+					do(txn, "Update", k)
+					bs := below(k)
+					for j := rnd.Range(1, 3); j > 0; j-- {
+						b := hx.Pick(rnd, bs)
+						switch {
+						case !cur[b]:
+							do(txn, "Handle", b)
+						case rnd.Pct(75):
+							do(txn, "Delete", b)
+						default:
+							do(txn, "Update", b)
+						}
+					}
+					if rnd.Pct(70) {
+						return
+					}
+				}
+			}
+			for j := rnd.Range(1, 4); j > 0; j-- {
+				ks := curKeys()
+				switch x := rnd.Intn(3); {
+				case x == 0 && len(ks) > 0:
+					do(txn, "Update", hx.Pick(rnd, ks))
+				case x == 1 && len(ks) > 0:
+					do(txn, "Delete", hx.Pick(rnd, ks))
+				default:
+					do(txn, "Handle", hx.Pick(rnd, methods)+" "+hx.Pick(rnd, fam))
+				}
+			}
+		}
+		var reqs []isoReq
+		mkReqs := func() {
+			// requests: instantiations of the patterns the transaction touched first, then of the rest of
+			// the family (committed or not), a few of them perturbed
+			order := append(append([]string{}, touched...), fam...)
+			seen := map[string]bool{}
+			for _, p := range order {
+				if len(reqs) >= nreq {
+					break
+				}
+				h, pa := rt.SplitPattern(rt.Instantiate(rnd, p, false))
+				if rnd.Pct(20) {
+					pa = rt.PerturbPath(rnd, pa)
+				}
+				if pa == "" {
+					pa = "/"
+				}
+				q := isoReq{methods[0], h, pa}
+				if len(methods) > 1 && rnd.Pct(25) {
+					q.method = methods[1]
+				}
+				if k := q.method + "|" + h + "|" + pa; !seen[k] {
+					seen[k] = true
+					reqs = append(reqs, q)
+				}
+			}
+		}
+		openLo := map[isoReq]rt.Obs{}
+		mode := rnd.Intn(4)
+		modeName := []string{"Router.Txn(true) ... Abort", "Router.Txn(true) ... Commit", "Router.Updates returning an error", "Router.Updates returning nil"}[mode]
+		// observeRouter: every entry point of the ROUTER, expected = model/spec on `def` (fresh router filled from `set`)
+		observeRouter := func(phase string, set map[string]bool, def string) {
+			term, keys, ok := freshTree(set)
+			for _, q := range reqs {
+				lo := rt.Lookup(f, q.method, q.host, q.path)
+				rr, rtsr := func() (r *fox.Route, t bool) {
+					defer func() { _ = recover() }()
+					return f.Reverse(q.method, q.host, q.path)
+				}()
+				rev := "None"
+				if rr != nil {
+					rev = "(Some " + hx.Pair(hx.Bytes(rr.Pattern()), hx.Bool(rtsr)) + ")"
+				}
+				others, detail := rt.OtherEntryPoints(f, q.method, q.host, q.path, lo, true)
+				if _, seen := openLo[q]; !seen {
+					openLo[q] = lo
+				}
+				// the iterator taken before the transaction routes on the set committed then
+				func() {
+					defer func() {
+						if r := recover(); r != nil {
+							others, detail = false, detail+" early Iter panicked"
+						}
+					}()
+					want := openLo[q]
+					found, pat := false, ""
+					for _, r := range early.Reverse(func(yield func(string) bool) { yield(q.method) }, q.host, q.path) {
+						found, pat = true, r.Pattern()
+					}
+					if found != want.Found || (found && pat != want.Pattern) {
+						others, detail = false, detail+fmt.Sprintf(" Iter taken before the transaction: Reverse=(%v,%q), committed-then answer %s", found, pat, rt.FmtObs(want))
+					}
+				}()
+				if !ok {
+					others, detail = false, detail+" a fresh router refuses a recorded route"
+				}
+				inSpec := !rt.HasEmptySegment(q.path) && strings.HasPrefix(q.path, "/")
+				human := fmt.Sprintf("TXN-ISOLATION committed=%v; %s with writes %v; phase=%s; ROUTER %s host=%q path=%q => lookup=%+v reverse=(%v,%v) other-entry-points-agree=%v %s",
+					keys, modeName, ops, phase, q.method, q.host, q.path, lo, rr != nil, rtsr, others, detail)
+				cs.AddWithDef(def, term, lcaseTerm(def, q, lo.Term(), rev, inSpec, others), human)
+				st.Count("kind:txn-isolation:" + strings.Fields(phase)[0])
+				if lo.Found {
+					nontrivial++
+				}
+			}
+		}
+		// observeTxn: the open transaction's own entry points, expected = model/spec on the fresh router of its set
+		observeTxn := func(txn *fox.Txn, def string) {
+			term, keys, ok := freshTree(cur)
+			for _, q := range reqs {
+				wo, wr, wok, wdetail := rt.TxnEntryPoints(txn, q.method, q.host, q.path)
+				wrev := "None"
+				if wr.Found {
+					wrev = "(Some " + hx.Pair(hx.Bytes(wr.Pattern), hx.Bool(wr.Tsr)) + ")"
+				}
+				inSpec := !rt.HasEmptySegment(q.path) && strings.HasPrefix(q.path, "/")
+				human := fmt.Sprintf("TXN-ISOLATION committed before=%v; %s with writes %v; transaction's set=%v; phase=inside; TRANSACTION %s host=%q path=%q => Txn.Lookup=%+v Txn.Reverse=%+v agree=%v %s",
+					sortedKeys(committed), modeName, ops, keys, q.method, q.host, q.path, wo, wr, wok && ok, wdetail)
+				cs.AddWithDef(def, term, lcaseTerm(def, q, wo.Term(), wrev, inSpec, wok && ok), human)
+				st.Count("kind:txn-isolation:inside")
+			}
+		}
+		viewTxn := rnd.Pct(50)
+		body := func(txn *fox.Txn) {
+			writes(txn)
+			mkReqs()
+			observeRouter("open (uncommitted writes pending)", committed, fmt.Sprintf("xo%d", sc))
+			if viewTxn {
+				observeTxn(txn, fmt.Sprintf("xt%d", sc))
+			}
+		}
+		switch mode {
+		case 0, 1:
+			txn := f.Txn(true)
+			body(txn)
+			if mode == 0 {
+				txn.Abort()
+			} else {
+				txn.Commit()
+			}
+		case 2:
+			_ = f.Updates(func(txn *fox.Txn) error { body(txn); return errors.New("rolled back by the harness") })
+		default:
+			_ = f.Updates(func(txn *fox.Txn) error { body(txn); return nil })
+		}
+		if mode == 1 || mode == 3 {
+			observeRouter("after-commit", cur, fmt.Sprintf("xa%d", sc))
+		} else {
+			observeRouter("after-rollback", committed, fmt.Sprintf("xo%d", sc))
+		}
+		st.Count("set:txn-isolation")
+		if scripted {
+			st.Count("set:txn-isolation:update-then-write-below")
+		}
+	}
+	return
+}
+
+func sortedKeys(m map[string]bool) []string {
+	ks := make([]string, 0, len(m))
+	for k := range m {
+		ks = append(ks, k)
+	}
+	sort.Strings(ks)
+	return ks
 }
